@@ -12,10 +12,21 @@
 //   an emission of (e, s) visits, in list order, the records that are live at their turn and whose serial is older than the start of the outermost emission
 //   of (e, s) still in progress; it stops for good when e is destroyed.
 // Every slot entry is compared with the model's next expected record; the end of every emission is compared with "nothing left to expect".
-// At quiescent points (no emission in progress, after every top-level action) Emitter::signalData and Listener::slotData are walked through
-// -fno-access-control and compared with the model's live records (emitter side as a sequence: it is the invocation order; listener side as a multiset).
-// During emissions the same walk runs in a relaxed, implementation-aware form only to *attribute* a later verdict to the API call after which the
-// structures first diverged (it never produces a verdict itself).
+// Before the remaining objects of a case are destroyed every signal that ever had a connection is emitted once more at top level without nested actions
+// (final sweep): a record the library kept, lost or reordered against the model becomes a wrong / missing / misordered invocation there at the latest.
+// Two build flavours (HARNESS_GUIDE "Robustness against behaviour-preserving changes"):
+//  * normal (-fno-access-control): at quiescent points (no emission in progress, after every top-level action) Emitter::signalData and Listener::slotData are
+//    walked and compared with the model's live records (emitter side as a sequence: it is the invocation order; listener side as a multiset). The walk is
+//    container-agnostic (auto iterators: begin/end/++/key()/operator* only) and asks for nothing the property does not state: the records that are not marked
+//    disconnected must be exactly the live connections, in connection order. Records marked disconnected (tombstones awaiting the deferred clean-up) describe no
+//    connection and are ignored whenever they are met; a dirty flag that is still set and a record still in state connecting while that flag is set are pending
+//    clean-up, not a divergence (the exact moment of the deferred clean-up is not observable); both are only counted.
+//    During emissions the same walk runs in a relaxed, implementation-aware form only to *attribute* a later verdict to the API call after which the
+//    structures first diverged (it never produces a verdict itself).
+//  * fallback (-DVERIF_NO_PRIVATE, no -fno-access-control): everything that names private/protected library state is compiled out. All public-API oracles stay on
+//    (lockstep model of slot invocations: exact listener, slot, order, arguments; nothing after disconnect/destroy; ASan on really deleted listeners/emitters; the
+//    final sweep). The bookkeeping clause is then checked only indirectly - through what later emissions and destructions do - which the evidence states in the
+//    set bookkeeping_clause and the counter quiescent_points_bookkeeping_checked_only_indirectly.
 // Arities: Callback.hpp has nine separate copies of emit() (0..8 arguments, each with its own slot-iteration loop) and nine connect()/disconnect()
 // templates. The harness emitter class has nine signals sig0..sig8 and the listener class two slots per arity (a0/b0 .. a8/b8, bK virtual). The model keeps
 // signal *indexes* per emitter object; which of the signals stands behind an index is drawn per emitter object (recreated emitters draw again; see
@@ -124,6 +135,8 @@ static const char* const SIGN18[NSIGS] = { FOR_ARITIES(NAMES) };   // by signal 
 static const char* const SLOTN9[NAR][2] = { FOR_ARITIES(NAMES) };
 #undef NAMES
 
+#ifndef VERIF_NO_PRIVATE
+// the library's own (private) key type: only the structure walkers need it
 static Callback::MemberFuncPtr sigKey(int sid) {
   switch (sid) {
 #define CASE(K) case 2 * K: return Callback::MemberFuncPtr(&Em::sig##K); case 2 * K + 1: return Callback::MemberFuncPtr(&Em::sig##K##b);
@@ -139,6 +152,31 @@ static Callback::MemberFuncPtr slotKey(int k, int which) {
 #undef CASE
   }
   harnessBug("slotKey: arity %d", k);
+}
+#endif
+// the object representation of a pointer to member function (what any implementation has to go by to tell signals and slots apart); public API only
+struct RawKey { unsigned char b[48]; size_t n; };
+template <typename M> static RawKey rawKey(M m) {
+  RawKey k; memset(k.b, 0, sizeof k.b); k.n = sizeof(M);
+  if (sizeof(M) > sizeof k.b) harnessBug("rawKey: pointer to member of %lu bytes", (unsigned long)sizeof(M));
+  memcpy(k.b, &m, sizeof(M)); return k;
+}
+static bool sameKey(const RawKey& a, const RawKey& b) { return a.n == b.n && !memcmp(a.b, b.b, a.n); }
+static RawKey rawSigKey(int sid) {
+  switch (sid) {
+#define CASE(K) case 2 * K: return rawKey(&Em::sig##K); case 2 * K + 1: return rawKey(&Em::sig##K##b);
+  FOR_ARITIES(CASE)
+#undef CASE
+  }
+  harnessBug("rawSigKey: signal id %d", sid);
+}
+static RawKey rawSlotKey(int k, int which) {
+  switch (k) {
+#define CASE(K) case K: return which == 0 ? rawKey(&Li::a##K) : rawKey(&Li::b##K);
+  FOR_ARITIES(CASE)
+#undef CASE
+  }
+  harnessBug("rawSlotKey: arity %d", k);
 }
 static void realConnect(Em* e, int sid, Li* l, int which) {
   switch (sid) {
@@ -168,8 +206,12 @@ static void realEmit(Em* e, int sid, long seq) {
 }
 // the model identifies signals and slots by their keys: all of them must be pairwise distinct
 static void checkKeysDistinct() {
-  for (int a = 0; a < NSIGS; ++a) for (int b = a + 1; b < NSIGS; ++b) if (sigKey(a) == sigKey(b)) harnessBug("signal keys of %s and %s coincide", SIGN18[a], SIGN18[b]);
-  for (int a = 0; a < 2 * NAR; ++a) for (int b = a + 1; b < 2 * NAR; ++b) if (slotKey(a / 2, a % 2) == slotKey(b / 2, b % 2)) harnessBug("slot keys %s and %s coincide", SLOTN9[a / 2][a % 2], SLOTN9[b / 2][b % 2]);
+  for (int a = 0; a < NSIGS; ++a) for (int b = a + 1; b < NSIGS; ++b) if (sameKey(rawSigKey(a), rawSigKey(b))) harnessBug("signal keys of %s and %s coincide", SIGN18[a], SIGN18[b]);
+  for (int a = 0; a < 2 * NAR; ++a) for (int b = a + 1; b < 2 * NAR; ++b) if (sameKey(rawSlotKey(a / 2, a % 2), rawSlotKey(b / 2, b % 2))) harnessBug("slot keys %s and %s coincide", SLOTN9[a / 2][a % 2], SLOTN9[b / 2][b % 2]);
+#ifndef VERIF_NO_PRIVATE
+  for (int a = 0; a < NSIGS; ++a) for (int b = a + 1; b < NSIGS; ++b) if (sigKey(a) == sigKey(b)) harnessBug("library signal keys of %s and %s coincide", SIGN18[a], SIGN18[b]);
+  for (int a = 0; a < 2 * NAR; ++a) for (int b = a + 1; b < 2 * NAR; ++b) if (slotKey(a / 2, a % 2) == slotKey(b / 2, b % 2)) harnessBug("library slot keys %s and %s coincide", SLOTN9[a / 2][a % 2], SLOTN9[b / 2][b % 2]);
+#endif
 }
 
 // per-arity observations (kept locally: vh::cnt is a linear search; flushed by flushArityStats)
@@ -206,7 +248,7 @@ enum { MAXE = 3, MAXL = 4, MAXS = 3 };   // MAXS = signal indexes per emitter ob
 enum Why { W_LIVE = 0, W_DISC_QUIESCENT, W_DISC_EMITTING, W_LISTENER_DESTROYED, W_EMITTER_DESTROYED };
 struct LiM { int idx; long gen; Li* obj; bool live; };
 struct Rec { LiM* l; int which; u64 serial; bool live; int why; u64 diedAt; };
-struct EmM { int idx; long gen; Em* obj; bool live; int sid[MAXS]; int ar[MAXS]; int depth[MAXS]; u64 outerStart[MAXS]; Vec<Rec> recs[MAXS]; };   // sid[s] = signal id (which of the 18 signal members) behind signal index s, ar[s] = sid[s] / 2 = its arity
+struct EmM { int idx; long gen; Em* obj; bool live; int sid[MAXS]; int ar[MAXS]; int depth[MAXS]; u64 outerStart[MAXS]; bool everConn[MAXS]; Vec<Rec> recs[MAXS]; };   // everConn[s] = connect() was called for signal index s of this object; sid[s] = signal id (which of the 18 signal members) behind signal index s, ar[s] = sid[s] / 2 = its arity
 #define SN(e, sig) SIGN18[(e)->sid[sig]]
 #define LN(e, sig, which) SLOTN9[(e)->ar[sig]][which]
 struct Frame { EmM* e; int sig; size_t pos; long arg; long invoked; u64 startClock; };
@@ -256,12 +298,16 @@ static void histf(const char* fmt, ...) {
 }
 
 static LiM* liveListenerAt(void* self) { for (int i = 0; i < g.NL; ++i) if (g.li[i] && g.li[i]->live && (void*)g.li[i]->obj == self) return g.li[i]; return 0; }
+#ifndef VERIF_NO_PRIVATE
 static EmM* liveEmitterAt(Callback::Emitter* p) { for (int i = 0; i < g.NE; ++i) if (g.em[i] && g.em[i]->live && (Callback::Emitter*)g.em[i]->obj == p) return g.em[i]; return 0; }
+#endif
 static EmM* randLiveE() { EmM* c[MAXE]; int n = 0; for (int i = 0; i < g.NE; ++i) if (g.em[i] && g.em[i]->live) c[n++] = g.em[i]; return n ? c[g.r.below((u64)n)] : 0; }
 static LiM* randLiveL() { LiM* c[MAXL]; int n = 0; for (int i = 0; i < g.NL; ++i) if (g.li[i] && g.li[i]->live) c[n++] = g.li[i]; return n ? c[g.r.below((u64)n)] : 0; }
 static size_t liveCount(EmM* e, int sig) { size_t n = 0; for (size_t i = 0; i < e->recs[sig].n; ++i) if (e->recs[sig][i].live) ++n; return n; }
 static bool anyEmitting(EmM* e) { for (int s = 0; s < MAXS; ++s) if (e->depth[s] > 0) return true; return false; }
+#ifndef VERIF_NO_PRIVATE
 static int sigIndexOfKey(EmM* e, const Callback::MemberFuncPtr& key) { for (int s = 0; s < MAXS; ++s) if (key == sigKey(e->sid[s])) return s; return -1; }
+#endif
 // live connections of slot (l, which-of-arity) to signals of e other than signal index sig: the same listener slot on another signal of the same emitter
 static long liveOnOtherSignals(EmM* e, int sig, LiM* l, int which) {
   long n = 0;
@@ -596,7 +642,7 @@ static void drawSignals(EmM* e) {
 static void actCreateE(int idx) {
   CtxScope cs;
   setctxf("Emitter.create/%s", g.frames.n == 0 ? "quiescent" : "in-slot");
-  EmM* e = new EmM; e->idx = idx; e->gen = ++g.gen; e->live = true; for (int s = 0; s < MAXS; ++s) { e->depth[s] = 0; e->outerStart[s] = 0; }
+  EmM* e = new EmM; e->idx = idx; e->gen = ++g.gen; e->live = true; for (int s = 0; s < MAXS; ++s) { e->depth[s] = 0; e->outerStart[s] = 0; e->everConn[s] = false; }
   drawSignals(e);
   histf("E%d = new emitter   # signals %s, %s, %s", idx, SN(e, 0), SN(e, 1), SN(e, 2));
   e->obj = new Em(e->gen);
